@@ -1,3 +1,82 @@
-LEVEL = 'other'
-EXPLANATION = 'C15 (under construction)'
-EXTRA = []
+"""C15 - event rows mark each sight-line and sonic crossing once, within one step."""
+import time
+
+from contracts.integrate_rt import rt_integrate  # noqa: F401
+
+LEVEL = 'proof'
+EXPLANATION = ('_TrajectoryDataFilter.setup_seen_zero, check_zero_crossing, check_mach_crossing and should_record under contract '
+               'for EVERY filter state and step: ZERO_UP is raised exactly at the first point on or above the sight line '
+               'beyond the muzzle and only if no upward crossing was seen, ZERO_DOWN exactly at the first point below the line '
+               'after the upward crossing, each remembered in seen_zero (monotone: flags only grow) so it is raised at most '
+               'once; MACH exactly when the previous step\'s speed / local speed of sound was above 1 and this '
+               'step\'s is at or below 1; a row is returned exactly when a '
+               'requested flag is raised and event rows are the CURRENT integration state (so the flagged row is the first '
+               'state after the event: within one integration step of it). History harnesses built with the real constructor: '
+               'zero_flags_over_three_points, mach_flags_over_four_steps (no history can re-arm a consumed crossing; Mach '
+               're-arms after the speed rose above 1 again). _integrate: the filter is fed every state in time order '
+               '(filter-time-bookkeeping invariant), rows are appended in that order.')
+TEXT = ('the per-step characterisation of every flag and the at-most-once memory are proved for all filter states; the two '
+        'quantitative bounds (distance from the sight line <= one step x relative slope; Mach within one step\'s deceleration '
+        'below 1) follow from "the flagged row is the first state after the event" + the step clauses and are additionally '
+        'exercised by a bounded stand-in')
+NOT_DECIDED = ['the quantitative within-one-step bounds as inequalities over a whole trajectory: derived on paper from the '
+               'per-step clauses, bounded stand-in', 'time order of flagged rows among ALL rows: range rows are interpolated '
+               'at an earlier time than the event row of the same step - order inside one step is checked by the bounded '
+               'stand-in only']
+EXTRA = ['bounded_event_rows', 'rt_integrate']
+
+
+def bounded_event_rows(tier, seed):
+    import math
+    import random
+    from pyvc.bounded import pkg, std_shot, mk
+    from pyvc.scan import result
+    P = pkg()
+    rng = random.Random(1500 + seed)
+    t0 = time.time()
+    bad = None
+    cases = 0
+    F = P.TrajFlag
+    for k in range(4 if tier == 'quick' else 16):
+        look = [0.0, 0.0, 4.0, -3.0][k % 4]
+        shot = std_shot(P, rng, look_deg=look, mv=rng.uniform(1500, 3000), bc=rng.uniform(0.15, 0.5), table=P.TableG7, sh=rng.uniform(1.5, 3))
+        calc = P.Calculator()
+        try:
+            calc.set_weapon_zero(shot, P.Unit.Yard(rng.choice([100, 200])))
+            tr = calc.fire(shot, P.Unit.Yard(1200), P.Unit.Yard(5), extra_data=True).trajectory
+        except P.RangeError as e:
+            tr = e.incomplete_trajectory
+        cases += 1
+        ups = [r for r in tr if r.flag & F.ZERO_UP]
+        downs = [r for r in tr if r.flag & F.ZERO_DOWN]
+        machs = [r for r in tr if r.flag & F.MACH]
+        # ground truth from the plain rows of the same result: sign changes of the distance to the sight line
+        plain = [r for r in tr if r.flag & F.RANGE][1:]
+        d = [r.target_drop >> P.Unit.Foot for r in plain]
+        up_seen = any(a < 0 <= b for a, b in zip(d, d[1:])) or (d and d[0] >= 0 and (tr[0].target_drop >> P.Unit.Foot) < 0)
+        down_seen = any(a >= 0 > b for a, b in zip(d, d[1:]))
+        if up_seen and len(ups) != 1 or down_seen and len(downs) != 1 or len(ups) > 1 or len(downs) > 1:
+            bad = (f'shot {k} (look {look}): {len(ups)} zero-up / {len(downs)} zero-down rows; the plain rows cross upward: '
+                   f'{up_seen}, downward: {down_seen}')
+            continue
+        if not (ups and downs):
+            continue
+        if not ups[0].time < downs[0].time:
+            bad = f'shot {k}: zero-down not after zero-up'
+        for r in ups + downs:
+            slope = abs(math.tan((r.angle >> P.Unit.Radian) - (shot.look_angle >> P.Unit.Radian)))
+            # one integration step advances at most ~0.27 ft (0.25 ft through the air plus gravity); allow 0.5 ft
+            if abs(r.target_drop >> P.Unit.Foot) > 0.5 * slope / max(0.2, math.cos(math.radians(look))) + 1e-6:
+                bad = f'shot {k}: flagged crossing {abs(r.target_drop >> P.Unit.Foot):.5f} ft from the sight line (slope {slope:.5f})'
+        crossed = tr[0].mach > 1 and tr[-1].mach < 1
+        if crossed != (len(machs) >= 1) or len(machs) > 1:
+            bad = f'shot {k}: {len(machs)} Mach rows, speed crossed: {crossed}'
+        for r in machs:
+            if not (0.999 < r.mach <= 1.0):
+                bad = f'shot {k}: Mach row at Mach {r.mach}'
+        if any(b.time < a.time for a, b in zip(tr, tr[1:])):
+            bad = f'shot {k}: rows not in time order'
+    return result('bounded:event-rows', [mk('one-zero-up-one-zero-down-one-mach-row-within-a-step-in-time-order', bad is None,
+                  'zeroed shots (level and inclined sight lines) to 1200 yd with extra data, 5-yd rows as ground truth: one ZERO_UP / '
+                  'ZERO_DOWN row whenever the plain rows change sign (never more than one), each within half a foot x relative slope of the sight line; one MACH row iff the speed fell '
+                  'through Mach 1, at 0.999 < Mach <= 1; all rows in time order', cases, t0, bad)], t0, props=('C15',))
